@@ -164,7 +164,9 @@ def run_check(prop, tier, seed):
     tie = []
     tie_ok = True
     seeds = [seed] if not thorough else [seed, seed * 7919 + 1, seed * 104729 + 2]
-    for entry in prop.SCOPE:
+    from . import scopes
+
+    for entry in (prop.SCOPE or scopes.SCOPES.get(pid, [])):
         comp, n_quick, size = entry[:3]
         opts = entry[3] if len(entry) > 3 else {}
         if opts.get("thorough_only") and not thorough:
